@@ -243,6 +243,122 @@ theorem crun_lower (C : Comp D S F) (v : Variant) (hit : F → F → Bool) (cfg 
           simp only [hds.1, hds.2] at this
           exact this
 
+/-- an evaluate (successful or failing) keeps the invariant of the lower layers -/
+theorem inv_step_eval (W : World D S F) (v : Variant) (hit : F → F → Bool) (cfg : Cfg)
+    (hx : ∀ a b, hit a b = true → a = b) (st : St D S F) (q : Query F)
+    (h : Inv W cfg.parabola st) : Inv W cfg.parabola (step W v hit cfg st (.evaluate q)).1 := by
+  simp only [step, evalE]
+  split
+  · exact (evalC_spec W hit hx cfg st q h).2.1
+  · exact ⟨h.interp_le, h.interp_ok, h.pdc_ok, h.bkg_ok⟩
+
+/-- the composite evaluation whose cached quantities the composite second derivative reads: the last
+successful one of the current trial (a failed one forgets — `clearNsgOnEval`) -/
+def clastEval (C : Comp D S F) (par : Bool) : S → Option (Query F) → List (FOp D S F) → Option (Query F)
+  | _, r, [] => r
+  | s, _, .initTrial _ :: t => clastEval C par s none t
+  | _, _, .changeSource s :: t => clastEval C par s none t
+  | s, r, .cevaluate q :: t =>
+    clastEval C par s (match C.fj s q with
+      | [] => r
+      | f0 :: _ => if queryOk C.T.W par (q0 q f0) then some q else none) t
+
+/-- the evaluation dataset 0 remembers, given the composite one -/
+def lowQ (C : Comp D S F) (s : S) (r : Option (Query F)) : Option (Query F) :=
+  r.bind (fun q => match C.fj s q with | [] => none | f0 :: _ => some (q0 q f0))
+
+/-- invariant of the composite state along a history -/
+structure CI (C : Comp D S F) (par : Bool) (c : CSt D S F) (st : St D S F) (r : Option (Query F)) :
+    Prop where
+  ti : TI C.T par c.t st (lowQ C st.src r)
+  inv : Inv C.T.W par st
+  svc : ∀ q, r = some q → ∃ f0 fr, C.fj st.src q = f0 :: fr ∧ c.fsvc = some (f0 :: fr) ∧
+    c.nsg2 = some ((othersEval C st.data st.src q fr).map (·.2.2))
+
+theorem ci_run (C : Comp D S F) (v : Variant) (hit : F → F → Bool) (cfg : Cfg)
+    (hx : ∀ a b, hit a b = true → a = b) (hb : 0 < bumpInit v cfg) (hr : v.resetNsgrad = true)
+    (hc : v.clearNsgOnEval = true) :
+    ∀ (fops : List (FOp D S F)) (c : CSt D S F) (st : St D S F) (r : Option (Query F)),
+    CI C cfg.parabola c st r →
+    CI C cfg.parabola (crun C v hit cfg c (cexpandAll c.t.base.data fops)).1
+      (runSt C.T.W v hit cfg st (lower C st.src fops)) (clastEval C cfg.parabola st.src r fops) := by
+  intro fops
+  induction fops with
+  | nil => intro c st r h; exact h
+  | cons op fops ih =>
+    intro c st r h
+    have hbase : c.t.base = st := h.ti.base
+    cases op with
+    | initTrial d =>
+      have hstep := tfstep_refines C.T v hit cfg hx hr c.t st _ (.initTrial d) h.ti h.inv
+      have hinv := inv_of_lt C.T.W cfg.parabola st (step C.T.W v hit cfg st (.initTrial d)).1 h.inv rfl rfl rfl
+        (by simp only [step, initTrial]; omega)
+      have hnew : CI C cfg.parabola
+          ⟨tfstep C.T v hit cfg c.t (.initTrial d), c.fsvc, if v.resetNsgrad then none else c.nsg2⟩
+          (step C.T.W v hit cfg st (.initTrial d)).1 none :=
+        ⟨by simpa [lowQ, leStep] using hstep, hinv, by intro q hq; cases hq⟩
+      have := ih _ _ none hnew
+      rw [show (tfstep C.T v hit cfg c.t (.initTrial d)).base.data = d by
+        simp [tfstep, expand, trun, tstep]] at this
+      simp only [cexpandAll, crun, cstep, lower, clastEval]
+      simpa [tfstep, expand, trun, runSt, run, step, initTrial] using this
+    | changeSource s =>
+      have hstep := tfstep_refines C.T v hit cfg hx hr c.t st _ (.changeSource s) h.ti h.inv
+      have hinv := inv_of_lt C.T.W cfg.parabola st (step C.T.W v hit cfg st (.changeSource s)).1 h.inv rfl rfl rfl
+        (by simp only [step, changeSource, initTrial]; omega)
+      have hnew : CI C cfg.parabola
+          ⟨tfstep C.T v hit cfg c.t (.changeSource s), c.fsvc, if v.resetNsgrad then none else c.nsg2⟩
+          (step C.T.W v hit cfg st (.changeSource s)).1 none :=
+        ⟨by simpa [lowQ, leStep] using hstep, hinv, by intro q hq; cases hq⟩
+      have := ih _ _ none hnew
+      rw [show (tfstep C.T v hit cfg c.t (.changeSource s)).base.data = st.data by
+        simp [tfstep, expand, trun, tstep, hbase]] at this
+      simp only [cexpandAll, crun, cstep, lower, clastEval]
+      simpa [tfstep, expand, trun, runSt, run, step, changeSource, initTrial, hbase] using this
+    | cevaluate q =>
+      simp only [cexpandAll, crun, cstep, lower, clastEval, hbase]
+      cases hf : C.fj st.src q with
+      | nil =>
+        have := ih c st r h
+        rw [hbase] at this
+        simpa using this
+      | cons f0 fr =>
+        have hstep := tfstep_refines C.T v hit cfg hx hr c.t st _ (.evaluate (q0 q f0)) h.ti h.inv
+        have hinv := inv_step_eval C.T.W v hit cfg hx st (q0 q f0) h.inv
+        have hds : (step C.T.W v hit cfg st (.evaluate (q0 q f0))).1.data = st.data ∧
+            (step C.T.W v hit cfg st (.evaluate (q0 q f0))).1.src = st.src := by
+          simp only [step, evalE]; split <;> exact ⟨rfl, rfl⟩
+        have hsy : c.t.evd = some (c.t.base.data, c.t.base.src) := h.ti.sync
+        by_cases hq : queryOk C.T.W cfg.parabola (q0 q f0) = true
+        · -- the evaluation succeeds: services, dataset caches all describe q
+          have hnew : CI C cfg.parabola
+              ⟨tfstep C.T v hit cfg c.t (.evaluate (q0 q f0)), some (f0 :: fr),
+                some ((othersEval C st.data st.src q fr).map (·.2.2))⟩
+              (step C.T.W v hit cfg st (.evaluate (q0 q f0))).1 (some q) := by
+            refine ⟨?_, hinv, ?_⟩
+            · simpa [lowQ, leStep, hq, hds.2, hf] using hstep
+            · intro q' hq'
+              cases hq'
+              exact ⟨f0, fr, by rw [hds.2, hf], rfl, by rw [hds.1, hds.2]⟩
+          have := ih _ _ (some q) hnew
+          rw [show (tfstep C.T v hit cfg c.t (.evaluate (q0 q f0))).base.data = st.data by
+            simp only [tfstep, expand, trun]
+            rw [(tstep_eval_data_src C.T v hit cfg c.t (q0 q f0)).1, hbase]] at this
+          simp only [tfstep, expand, trun, tstep, hsy, hq, if_true, hbase] at this ⊢
+          simpa [runSt, run, hds.2, hq] using this
+        · have hq' : queryOk C.T.W cfg.parabola (q0 q f0) = false := by simpa using hq
+          have hnew : CI C cfg.parabola
+              ⟨tfstep C.T v hit cfg c.t (.evaluate (q0 q f0)), some (f0 :: fr), c.nsg2⟩
+              (step C.T.W v hit cfg st (.evaluate (q0 q f0))).1 none := by
+            refine ⟨?_, hinv, by intro q' hq''; cases hq''⟩
+            simpa [lowQ, leStep, hq', hc] using hstep
+          have := ih _ _ none hnew
+          rw [show (tfstep C.T v hit cfg c.t (.evaluate (q0 q f0))).base.data = st.data by
+            simp only [tfstep, expand, trun]
+            rw [(tstep_eval_data_src C.T v hit cfg c.t (q0 q f0)).1, hbase]] at this
+          simp only [tfstep, expand, trun, tstep, hsy, hq', hbase] at this ⊢
+          simpa [runSt, run, hds.2, hq'] using this
+
 end refine
 
 end C06
